@@ -1,6 +1,8 @@
 """C16 — the interpreter is total: every step gives a state or an error; stepping equals run; errors leave the last state."""
 import itertools
 
+import zlib
+
 from .. import gen
 from ..ref import ec, hashes, interp, wire
 from . import C09, C14
@@ -145,6 +147,33 @@ def cases(ctx):
             tx["ins"][idx]["script"] = wire.detok(un + lk)
         ext[idx] = e or None
         yield {"k": "tx", "tx": wire.tx_encode(tx).hex(), "idx": idx, "ext": ext, "tag": "tx_bound", "nbits": len(un) + len(lk)}
+    # (f) transaction-bound with structure: signature opcodes and code separators inside / after conditionals whose predicates are
+    # constants, so that branches really are taken and the separator bookkeeping runs after the executing script has been rearranged
+    sig_like = b"\x30\x06\x02\x01\x01\x02\x01\x01\x41"
+    for _ in range(1500 if t else 24):
+        ni = r.choice([1, 2])
+        tx = gen.gen_tx(r, ni, r.choice([0, 1, 2]), coinbase=False, script_kw={"n_tokens": 0})
+        idx = r.randrange(ni)
+        body = []
+        for _b in range(r.randrange(1, 5)):
+            x = r.random()
+            inner = [r.choice([("op", 171), ("op", 97), ("op", 81), ("op", 117), interp.push_of(pub), interp.push_of(sig_like), ("op", 172), ("op", 174)]) for _ in range(r.randrange(0, 4))]
+            if x < 0.6:
+                blk = [("op", r.choice([81, 81, 0])), ("op", r.choice([99, 100]))] + inner
+                if r.random() < 0.5:
+                    blk += [("op", 103)] + [r.choice([("op", 171), ("op", 97), ("op", 81)]) for _ in range(r.randrange(0, 3))]
+                blk += [("op", 104)]
+                body += blk
+            else:
+                body += inner
+        lk = body + [interp.push_of(sig_like), interp.push_of(pub), ("op", r.choice([172, 173]))]
+        un = [interp.push_of(r.choice([sig_like, pub, b"", b"\x01"])) for _ in range(r.randrange(0, 3))]
+        if r.random() < 0.2:
+            un = [("op", 81), ("op", 99), ("op", 171), ("op", 104)] + un
+        tx["ins"][idx]["script"] = wire.detok(un)
+        ext = [None] * ni
+        ext[idx] = {"locking": wire.detok(lk).hex(), "satoshis": gen.u64(r)}
+        yield {"k": "tx", "tx": wire.tx_encode(tx).hex(), "idx": idx, "ext": ext, "tag": "tx_bound_conditional", "nbits": len(un) + len(lk)}
 
 
 def request_of(case):
@@ -165,6 +194,11 @@ def request_of(case):
     else:
         nb = case["nbits"]
         req = {"op": "interp", "tx": case["tx"], "idx": case["idx"], "ext": case["ext"], "max_steps": nb + 1, "mode": "both"}
+    # a finished interpreter asked to continue, and (for small programs) k steps + serde/clone of the interpreter object + run()
+    req["after_finish"] = True
+    if nb <= 64 and not case.get("compact"):
+        hk = zlib.crc32(repr(sorted(case.items())).encode()) if True else 0
+        req["mixed"] = {"k": hk % (nb + 1), "via": ("json", "clone", "json", "none")[(hk >> 8) % 4]}
     return req, nb
 
 
@@ -244,6 +278,29 @@ def assess(ctx, case, nb, r, build):
     ctx.ev()
     ctx.hit("step_vs_run")
     a_out = "ok" if s["end"] == "none" else "err"
+    af = o.get("after_finish")
+    if af is not None:
+        ctx.ev()
+        ctx.hit("continued_after_finish")
+        if af["run_again"] != "ok" or af["next_again"] != "none" or af["post"] != b["post"]:
+            ctx.viol("run() / next() on an already finished interpreter changes its state or fails%s" % tag, {"after": str(af)[:400], "final": str(b["post"])[:200]})
+    mx = o.get("mixed")
+    if mx is not None and mx["stopped"] is None:
+        ctx.ev()
+        via = (case.get("_via") or "")
+        if mx["via_err"] is not None:
+            if "panic" in mx["via_err"]:
+                ctx.viol("serialising / restoring a mid-run interpreter panics%s" % tag, {"resp": str(mx["via_err"])[:300]})
+            else:
+                ctx.note("mid-run interpreter does not survive its own serde JSON round trip (informational)")
+        elif not mx.get("bits_preserved", True):
+            ctx.note("serde JSON round trip of the interpreter changes its program (coinbase elements become pushes): nothing to compare")
+        elif mx["end"] == "panic":
+            ctx.viol("run() after k single steps panics: %s @ %s%s" % (C09.norm(mx["detail"]["msg"]), C09.short_file(mx["detail"]["file"]), tag), {"stepped": mx["stepped"]})
+        else:
+            ctx.hit("steps_then_transfer_then_run")
+            if mx["end"] != b["end"] or mx["post"] != b["post"]:
+                ctx.viol("k single steps, then a copy of the interpreter (serde JSON or clone), then run(): outcome or final stacks differ from run() alone%s" % tag, {"mixed": str(mx)[:400], "run": str(b)[:300]})
     if a_out != b["end"]:
         ctx.viol("single-stepping and run() disagree on the outcome (step: %s, run: %s)%s" % (a_out, b["end"], tag), {"step": s["detail"], "run": b["detail"]})
     elif "panic" in s["post"] or "panic" in b["post"]:
@@ -281,7 +338,7 @@ def extra_stages(tier, seed, res):
     per = {}
     try:
         for case in cases(ctx):
-            if case["tag"] == "tx_bound":
+            if case["tag"] in ("tx_bound", "tx_bound_conditional"):
                 continue  # EC operations cost seconds each under Miri
             if len(str(case)) > 1500:
                 continue
